@@ -29,6 +29,7 @@ fn setup(ctx: &mut Ctx) {
     ctx.floor("reads-checked", 5000);
     ctx.floor("header-lies:size-or-count>=2^31", 200);
     ctx.floor("padded-files", 20);
+    ctx.floor("whole-file-spanning-sections", 100);
     ctx.floor("open:read-total-checked", 300);
     ctx.floor("faulty-reader:retries-after-failed-call", 200);
 }
@@ -308,6 +309,12 @@ fn run(ctx: &mut Ctx, si: usize, _case: u64) {
                 if let Some(l) = mutate::structured_on(&mut ctx.rng, &mut b, &["e_shnum", "e_phnum", "e_shoff", "e_phoff", ".sh_size", ".sh_offset", ".sh_info", ".sh_link", ".p_filesz", ".p_offset", "e_shstrndx", ".sh_entsize"]) {
                     log.push(l);
                 }
+            }
+            if ctx.rng.chance(1, 4) {
+                // several tables each spanning (nearly) the whole file
+                let k = 2 + ctx.rng.usize_below(5);
+                log.extend(mutate::maximize_ranges(&mut ctx.rng, &mut b, k));
+                ctx.count("whole-file-spanning-sections");
             }
             count_lies(ctx, &log);
             // laziness is judged under the plain reader; the allocation bound under every legal reader
